@@ -29,5 +29,10 @@ def run(repo):
     chunks = re.search(r"delta_chunks\(\s*game_tick\s*,\s*delta_tick\s*,", body) is not None
     s += "/-- `send_snapshots` uses `delta_tick().unwrap_or(-1)` as the base tick of `delta_chunks(game_tick, delta_tick, ..)` -/\n"
     s += "def glue_base_tick_or_minus_one : Bool := %s\n\n" % ("true" if glue and chunks else "false")
+    m = re.search(r"delta_buffer\.reserve\(\s*([0-9_ *]+)\s*\)", body)
+    if not m:
+        raise exlib.ExtractError("delta_buffer.reserve(..) not found in send_snapshots of %s" % rel)
+    s += "/-- the capacity `send_snapshots` reserves for the packed delta -/\n"
+    s += "def glue_reserve : Nat := %d\n\n" % int(eval(m.group(1).replace("_", ""), {"__builtins__": {}}, {}))
     s += "end Tw.Gen.SnapMgr\n"
     return {"SnapMgr.lean": s}
